@@ -260,6 +260,14 @@ def h2(a, tier):
             excs[i] = CbErr(i)
             raise excs[i]
 
+    @context_teardown
+    async def shared_gen(i):
+        exc = yield
+        log.append(("begin", i))
+        received[i] = exc
+        await anyio.sleep(0)
+        finish(i)
+
     async def register(ctx, i):
         r = routes[i]
         if r == 0:
@@ -280,16 +288,7 @@ def h2(a, tier):
             # registered under TWO types: its teardown callback must still run exactly once
             ctx.add_resource(object(), f"res{i}", [_RA, _RB], teardown_callback=cb)
         elif r == 2:
-
-            @context_teardown
-            async def gen():
-                exc = yield
-                log.append(("begin", i))
-                received[i] = exc
-                await anyio.sleep(0)
-                finish(i)
-
-            await gen()
+            await shared_gen(i)  # ONE decorated function for all items (like one component class instantiated several times)
         elif r in (4, 5):
 
             def cb():
@@ -315,11 +314,21 @@ def h2(a, tier):
         else:
 
             async def service():
+                # the task's OWN context has an async teardown callback: the finalizer (the owner's callback) is complete only
+                # when that has finished as well
+                async def own_teardown():
+                    with anyio.CancelScope(shield=True):
+                        await anyio.sleep(0)
+                        await anyio.sleep(0)
+                    log.append(("end", i))
+
+                from asphalt.core import current_context
+
+                current_context().add_teardown_callback(own_teardown)
                 try:
                     await anyio.sleep_forever()
                 finally:
                     log.append(("begin", i))
-                    log.append(("end", i))
 
             await start_service_task(service, f"svc{i}")
 
